@@ -50,18 +50,22 @@ class Result:
         self.min_instances = 0
         self.trusted = []
         self.exceptions = []
+        self.distinct = set()
         from . import rat
         rat.BUDGET[0] = 6_000_000
 
     def ok(self, sample=None):
         self.obligations += 1
         self.discharged += 1
+        self.distinct.add(sample if sample is not None
+                          else f'#{self.obligations}')
         if sample is not None and len(self.samples) < 6:
             self.samples.append(f'{sample} -> ok')
 
     def fail(self, finding):
         self.obligations += 1
         self.findings.append(finding)
+        self.distinct.add((finding.function, finding.construct))
         if len(self.samples) < 8:
             self.samples.append(
                 f'{finding.file}:{finding.line} {finding.rule} '
@@ -227,10 +231,13 @@ def write_evidence(prop, tier, seed, results, new, knownhits, wall, meta):
             'obligations': obligations,
             'discharged': discharged,
             'evaluations': obligations,
-            'distinct_nontrivial': obligations,
+            'distinct_nontrivial': sum(len(r.distinct) for r in results),
             'rule': 'one obligation = one rule instance (call site, store, '
                     'path, formula or table row) discovered in the current '
-                    'source of /repo; all are distinct constructs',
+                    'source of /repo; distinct = obligations with different '
+                    '(rule, construct description), counted per rule; '
+                    'obligations reported without a description count once '
+                    'each',
             'samples': samples[:60],
             'exhaustive': True,
             'rules': [{
